@@ -155,9 +155,9 @@ type Runner struct {
 	// Poison: value.VerifSetPoison is on for this runner (discarded value objects are overwritten)
 	Poison            bool
 	afterFailedCommit bool
-	commitLaw         bool // a law about COMMIT failed in this runner
-	ReloadEachAttempt bool // ScanCancel: ROLLBACK before every attempt
-	pendingCreate     int  // CREATE TABLE statements since the last COMMIT
+	commitLaw         bool     // a law about COMMIT failed in this runner
+	ReloadEachAttempt bool     // ScanCancel: ROLLBACK before every attempt
+	pendingCreated    []string // tables CREATEd since the last COMMIT / ROLLBACK (their files exist, locked, uncommitted)
 }
 
 var wrapSeq int64
@@ -1868,7 +1868,7 @@ func (r *Runner) Exec(st *Stmt, cancelAt int64) *Outcome {
 			st.After()
 		}
 		if st.NewTable != "" {
-			r.pendingCreate++
+			r.pendingCreated = append(r.pendingCreated, st.NewTable)
 		}
 	}
 	tg := append([]string{}, st.Targets...)
@@ -1969,7 +1969,7 @@ func (r *Runner) AfterStdin(out *Outcome) {}
 
 // Rollback: ROLLBACK on the main and the control processor; every table is read back and compared with the model
 // (files are re-read from disk, temporary tables return to their restore point, STDIN to the session's copy).
-// Not used while a CREATE TABLE is pending (its file would disappear).
+// A table CREATEd in the rolled-back transaction is gone: its file must have been removed.
 func (r *Runner) Rollback() {
 	o := r.O
 	if _, err := r.Pr.Exec("ROLLBACK;"); err != nil {
@@ -1982,6 +1982,28 @@ func (r *Runner) Rollback() {
 			o.Law("rollback_failed", "twin: "+err.Error())
 		}
 	}
+	for _, n := range r.pendingCreated {
+		for _, d := range []string{r.Dir, r.TwinDir} {
+			if d == "" {
+				continue
+			}
+			if _, err := os.Stat(filepath.Join(d, n+".csv")); err == nil {
+				o.Law("rollback_left_created_file", map[string]string{"table": n, "dir": filepath.Base(d)})
+				r.commitLaw = true
+			}
+		}
+		var keep []*Tab
+		for _, t := range r.Tabs {
+			if t.Name != n {
+				keep = append(keep, t)
+			}
+		}
+		r.Tabs = keep
+		o.Case("c05.dump "+n, n+"?") // the model no longer has the table either
+		o.Count("rollback_of_created_table")
+	}
+	r.pendingCreated = nil
+	r.afterFailedCommit = false
 	for _, t := range r.Tabs {
 		sn := r.snap(t.Name)
 		o.Case("c05.dump "+t.Name, sn.Dump(t.Name))
@@ -1992,9 +2014,9 @@ func (r *Runner) Rollback() {
 	o.Count("rollback")
 }
 
-// CommitOrRollback: mostly COMMIT, sometimes ROLLBACK (never with a pending CREATE TABLE).
+// CommitOrRollback: mostly COMMIT, sometimes ROLLBACK.
 func (r *Runner) CommitOrRollback() {
-	if r.pendingCreate == 0 && r.G.Intn(3) == 0 {
+	if r.G.Intn(3) == 0 {
 		r.Rollback()
 		return
 	}
@@ -2047,12 +2069,31 @@ func (r *Runner) CommitAt(cancelAt int64) bool {
 				r.commitLaw = true
 			}
 		}
+		for f := range filesBefore {
+			if _, err := os.Stat(filepath.Join(r.Dir, f)); err != nil {
+				rp["file"] = f
+				o.Law("failed_commit_removed_file", rp)
+				r.commitLaw = true
+			}
+		}
 		if m := Marks(r.Pr); m != marksBefore {
 			rp["marks_before"], rp["marks_after"] = marksBefore, m
 			o.Law("failed_commit_changed_marks", rp)
 			r.commitLaw = true
 		}
+		created := map[string]bool{}
+		for _, n := range r.pendingCreated {
+			created[n+".csv"] = true
+		}
 		for f, b := range r.fileBytes() {
+			if created[f] {
+				// the file of a table CREATEd in this transaction IS its handler's file (lib/file/handler.go ForCreate, no
+				// temporary file): COMMIT encodes into it in place, so after a failed COMMIT it may hold bytes while the table
+				// is still marked created (marks compared above), locked and invisible; it is judged after the next
+				// ROLLBACK (must be removed) or COMMIT (must be written completely, compared with the control run)
+				o.Count("failed_commit_created_file_deferred")
+				continue
+			}
 			if filesBefore[f] != b {
 				rp["file"], rp["before"], rp["after"] = f, clip(filesBefore[f]), clip(b)
 				o.Law("failed_commit_changed_file", rp)
@@ -2062,7 +2103,7 @@ func (r *Runner) CommitAt(cancelAt int64) bool {
 		return false
 	}
 	o.Case("c05.commit", "ok "+Marks(r.Pr))
-	r.pendingCreate = 0
+	r.pendingCreated = nil
 	if r.Twin != nil {
 		if _, err := r.Twin.Exec("COMMIT;"); err != nil {
 			o.Law("commit_failed", "twin: "+err.Error())
@@ -2120,6 +2161,12 @@ func (r *Runner) FailedCommitEpisode(cancelAt int64) (bool, bool) {
 	}
 	if r.commitLaw {
 		return true, true
+	}
+	if len(r.pendingCreated) > 0 && r.G.Intn(2) == 0 {
+		// ROLLBACK after the failed COMMIT: the created tables' files (possibly holding encoded bytes) must be removed
+		r.Rollback()
+		r.CompareTwin("ROLLBACK after a failed COMMIT")
+		return true, r.commitLaw
 	}
 	for _, t := range r.Tabs {
 		if !t.File {
